@@ -59,7 +59,9 @@ type cfg struct {
 	depth     int
 }
 
-func (c cfg) name() string { return fmt.Sprintf("p2pkeswarm-whitelist-%s-depth%d", c.whitelist, c.depth) }
+func (c cfg) name() string {
+	return fmt.Sprintf("p2pkeswarm-whitelist-%s-depth%d", c.whitelist, c.depth)
+}
 
 type node struct {
 	name  string
